@@ -70,6 +70,31 @@ Theorem C15_truncate_wal_equiv : forall h mint mv last,
   view_items mint (d_items (replay_data mv (wal_records (h_wal h)))).
 Proof. exact truncate_wal_equiv. Qed.
 
+(* Agent: DB.truncate(mint) is Checkpoint(agent keep function, mint) of the last checkpoint and the segments
+   <= last; it preserves precedence when the records at or after mint belong to kept series. *)
+Theorem C15_agent_truncate_is_checkpoint : forall a mint gone last,
+  plan_last (w_first (a_wal a)) (w_cur (a_wal a)) = Some last ->
+  w_cpidx (a_wal a) <= last ->
+  StronglySorted seg_le (w_segs (a_wal a)) ->
+  let low := cp_input (a_wal a) last in
+  let high := map snd (filter (fun sr => last <? fst sr) (w_segs (a_wal a))) in
+  let ser := filter (fun r => negb (memz r gone)) (a_series a) in
+  let del := set_all gone (w_cur (a_wal a)) (a_deleted a) in
+  wal_records (a_wal a) = low ++ high /\
+  wal_records (a_wal (agent_truncate a mint gone)) = checkpoint (agent_keep ser del last) mint low ++ high.
+Proof. exact agent_truncate_records. Qed.
+
+Theorem C15_agent_truncate_preceded : forall a mint gone last,
+  plan_last (w_first (a_wal a)) (w_cur (a_wal a)) = Some last ->
+  w_cpidx (a_wal a) <= last ->
+  StronglySorted seg_le (w_segs (a_wal a)) ->
+  let ser := filter (fun r => negb (memz r gone)) (a_series a) in
+  let del := set_all gone (w_cur (a_wal a)) (a_deleted a) in
+  (forall x, In x (flat_map (rec_refs_at mint) (wal_records (a_wal a))) -> agent_keep ser del last x = true) ->
+  preceded mint (wal_records (a_wal a)) = true ->
+  preceded mint (wal_records (a_wal (agent_truncate a mint gone))) = true.
+Proof. exact agent_truncate_preceded. Qed.
+
 (* "Latest metadata" part of the statement: false for a label set whose old series record is dropped. *)
 Theorem C15_metadata_refuted :
   exists keep mint mv low high L,
